@@ -3,6 +3,14 @@
 import json
 props=[json.loads(l) for l in open('/verif/properties.jsonl')]
 src=json.load(open('/verif/manifest_src.json'))
+import subprocess
+desc=json.loads(subprocess.run(['/verif/bin/charonlint','-describe'],capture_output=True,text=True).stdout or '{}')
+for pid,d in desc.items():
+    if pid not in src['checks']:
+        src['checks'][pid]={
+          "text":"Structural necessary conditions decided exactly from the source on every path / call site (level other, not a proof of the behaviour). Decides: "+d['decides']+" Not decided: "+d['not_decided'],
+          "note":"Trusts go/types + go/ssa (x/tools v0.50.0) and the frozen rule tables in checker/internal/rules (DESIGN.md §5 "+pid+"); behaviour outside the named mechanisms is not examined.",
+          "technique":"static analysis: repository-specific dominance / must-pass-through / provenance / lockset rules on go/ssa"}
 checks=[];na=[]
 for p in props:
     pid=p['id']
